@@ -253,7 +253,7 @@ func ruleRepeat(c *Ctx) {
 		}
 		found[leaf] = true
 		r := ranges[p]
-		okR := !r.loInf && !r.hiInf && r.lo >= 0
+		okR := !r.loInf && !r.hiInf && r.lo >= 0 && r.hi <= 1<<16 // a per-line allocation of at most 64 KiB
 		c.check(okR, "C06-REPEAT", c.P.declName(norm), "configuration integer "+leaf+" is clamped on both sides", norm.Pos(),
 			"the normalised value lies in "+r.String()+" for every input (value-range analysis of the normaliser)",
 			"the configuration value "+leaf+" reaches strings.Repeat counts but the normaliser does not bound it on both sides (range of the normalised value: "+r.String()+"): a negative count panics, a huge value makes one request allocate gigabytes")
